@@ -7,7 +7,7 @@ The `cipher` / `inout` crates turn every public call shape into backend calls on
  L  lane agreement (engine L3): for every backend that overrides `*_par_blocks` (AES-NI, AES fixslice, Kuznyechik ...),
     the term stored to output lane i by the parallel routine equals the term the single-block routine stores, with the
     input replaced by input lane i -- for every lane.  This also shows lane i depends on no other lane.
-    Undecided for batch routines that interleave lanes in one state (fixslice bitslicing).
+    For batch routines that interleave lanes in one bitsliced state (AES fixslice) see fixslice_lanes (bit-level).
  B  buffer discipline: (1) interpreted with separate buffers, every backend entry leaves the input buffer object
     untouched; (2) a reference obtained from `InOut::get_out()` is never re-borrowed shared or handed to a reader
     (output is written, never read as input); (3) with Herbrand terms, no output byte term mentions the initial content
@@ -92,10 +92,135 @@ def run_backend(m, f, self_ty, in_val, tag):
     return I, st, status, r, in_obj, out_obj, before
 
 
+def soft_new(m, cipher_s):
+    return [f['id'] for f in m.fns if f.get('impl_trait') == 'crypto_common::KeyInit' and f.get('name') == 'new'
+            and f['crate'] in REPO_CRATES and m.ty(f['mir']['locals'][0])['s'] == cipher_s]
+
+
+def soft_call(I, m, self_ty, cipher, f, in_val, tag):
+    """call a backend method of a wrapper backend (a struct holding `&Cipher`) on the given cipher value"""
+    wd = m.ty(self_ty)
+    st = State()
+    I.fresh += 1
+    cobj = ('P', 'cipher', I.fresh)
+    st.mem[cobj] = cipher
+    I.fresh += 1
+    wobj = ('P', 'backend', I.fresh)
+    st.mem[wobj] = Struct(self_ty, [Ptr(cobj, (), None, None, None, None, False) if m.ty(fd['t']).get('size') != 0 else I.zst(fd['t'])
+                                    for fd in wd['variants'][0]['f']])
+    t = f['mir']['locals'][2]
+    vals = []
+    in_obj = out_obj = None
+    I.entry_state = st
+    for fd in I.types[t]['variants'][0]['f']:
+        fdd = I.types[fd['t']]
+        if fdd['k'] == 'ptr':
+            I.fresh += 1
+            obj = ('P', '%s.%s' % (tag, fd['name']), I.fresh)
+            if fd['name'].startswith('in'):
+                st.mem[obj] = in_val if in_val is not None else I.top(fdd['t'], 'x')
+                in_obj = obj
+            else:
+                st.mem[obj] = I.top(fdd['t'], 'o')
+                out_obj = obj
+            vals.append(Ptr(obj, (), None, None, None, None, fdd['mut']))
+        else:
+            vals.append(I.zst(fd['t']))
+    I.entry_state = None
+    before = st.mem[in_obj]
+    status, r = engine.run(I, f['id'], [Ptr(wobj, (), None, None, None, None, False), Struct(t, vals)], st)
+    return status, r, before, st.mem.get(out_obj)
+
+
+def soft_interp(m, summ, inv, fresh=True):
+    import bitform
+    if fresh:
+        equiv.fresh_terms()
+    else:
+        engine._INTERPS.clear()
+    I = engine.mk_interp(m, 60_000_000)
+    I.bitcanon = True
+    T.BITCANON = True
+    I.summaries = dict(summ)
+    bitform.PW_INVERSES.update(inv)
+    return I
+
+
+def wrapped_cipher(m, self_ty):
+    wd = m.ty(self_ty)
+    if wd['k'] != 'adt' or len(wd.get('variants', [])) != 1:
+        return None
+    refs = [fd for fd in wd['variants'][0]['f'] if m.ty(fd['t']).get('size') != 0]
+    if len(refs) != 1 or m.ty(refs[0]['t'])['k'] != 'ref':
+        return None
+    return m.ty(m.ty(refs[0]['t'])['t'])['s']
+
+
+def fixslice_lanes(m, cfgname, self_ty, sname, direction, single, par):
+    """rule L for the bitsliced AES backends (engine L3b): the instance is the one `KeyInit::new` builds from a symbolic
+    key (so that the round-key replication across the interleaved lanes is part of the terms), sub_bytes / inv_sub_bytes
+    are position-wise opaque functions (lemma proved first, see c01.bitlevel_setup), and every output lane of
+    *_par_blocks must equal, in bit-level canonical form, the single-block routine applied to that input lane."""
+    import c01, bitform
+    out = []
+    base = '%s|%s|%s' % (cfgname, sname, direction)
+    spec = c01.bitlevel_spec('aes::soft')
+    summ, inv, lem, verdict = c01.bitlevel_setup(m, spec)
+    if summ is None:
+        if verdict is False:
+            return [('vL', 'L-lane-agreement', base + '|lemma', '%s: %s' % (sname, lem))]
+        return [('undec', 'L-lane-agreement', base, '%s: bit-level mode not applicable (%s)' % (sname, lem))]
+    cipher_s = wrapped_cipher(m, self_ty)
+    if cipher_s is None:
+        return [('undec', 'L-lane-agreement', base, '%s: not a wrapper around a reference to the cipher' % sname)]
+    news = soft_new(m, cipher_s)
+    if not news:
+        return [('fc', 'L-lane-agreement', base + '|new', 'no KeyInit::new for %s' % pretty(cipher_s))]
+    try:
+        I = soft_interp(m, summ, inv)
+        st0 = State()
+        fnew = m.fn(news[0])
+        args = engine.default_args(I, st0, fnew)
+        status, cipher = engine.run(I, fnew['id'], args, st0)
+        if status != 'ok':
+            return [('fc', 'L-lane-agreement', base + '|new|' + status, str(cipher)[:200])]
+        status, r, pbefore, pout = soft_call(I, m, self_ty, cipher, par, None, 'p')
+        if status != 'ok':
+            return [('fc', 'L-lane-agreement', base + '|par|' + status, str(r)[:200])]
+        lanes_in, lanes_out = lanes_of(pbefore), lanes_of(pout)
+        if lanes_in is None or lanes_out is None or len(lanes_in) != len(lanes_out):
+            return [('fc', 'L-lane-agreement', base + '|shape', 'cannot split ParBlocks into lanes')]
+        inout_ty = m.ty(single['mir']['locals'][2])
+        block_ty = [I.types[fd['t']]['t'] for fd in inout_ty['variants'][0]['f'] if I.types[fd['t']]['k'] == 'ptr'][0]
+        for i, (li, lo) in enumerate(zip(lanes_in, lanes_out)):
+            key = base + '|lane%d' % i
+            status, r, _b, sout = soft_call(I, m, self_ty, cipher, single, li, 'l%d' % i)
+            if status != 'ok':
+                out.append(('fc', 'L-lane-agreement', key + '|' + status, str(r)[:200]))
+                continue
+            a = flatten(I, sout, block_ty)
+            b = flatten(I, lo, block_ty)
+            if a is None or b is None:
+                out.append(('fc', 'L-lane-agreement', key + '|flatten', 'block not flattenable'))
+                continue
+            diff = [j for j, (x, y) in enumerate(zip(a, b)) if x.term is None or y.term is None or bitform.recanon(x.term) is not bitform.recanon(y.term)]
+            if not diff:
+                out.append(('okL', 'L-lane-agreement', key, dict(backend=sname, direction=direction, lane=i, lanes=len(lanes_in),
+                                                                 engine='bit-level, instance from KeyInit::new on a symbolic key') if i == 0 else None))
+            else:
+                j = diff[0]
+                out.append(('vL', 'L-lane-agreement', key,
+                            '%s::%srypt_par_blocks: output lane %d byte %d is not the single-block result for input lane %d (bit-level canonical forms differ)' % (
+                                sname, direction, i, j, i)))
+    finally:
+        T.BITCANON = False
+        engine._INTERPS.clear()
+    return out
+
+
 def run(chk, facts_by_config):
     chk.trusted += ['cipher 0.5.0-pre.8 / inout 0.2.0-rc.4 (provided tail / in-place methods loop over single blocks)',
                     'the rewrite rules of analysis/terms.py']
-    chk.undecided += ['fixslice batch packing keeps the interleaved blocks apart (aes::soft par routines)']
     for cfgname, F in facts_by_config.items():
         chk.configs.append(cfgname)
         m = F.mono
@@ -216,6 +341,9 @@ def backend_job(job):
             out.append(('fc', 'L-lane-agreement', base + '|shape', 'cannot split ParBlocks into lanes'))
             return out
         undec = sname.startswith(PAR_UNDECIDED)
+        if undec:
+            out += fixslice_lanes(m, cfgname, self_ty, sname, direction, single, par)
+            return out
         for i, (li, lo) in enumerate(zip(lanes_in, lanes_out)):
             key = base + '|lane%d' % i
             Is, sts, status, r, sin, sout, _b = run_backend(m, single, self_ty, li, 'l%d' % i)
